@@ -107,6 +107,7 @@ impl Clone for Tr {
         });
         if BOMB_CLONE.with(|b| b.get()) == Some(k) {
             BOMB_CLONE.with(|b| b.set(None));
+            push(Ev::Clone(self.id, -1));
             panic!("injected clone panic");
         }
         let id = NEXT_ID.with(|n| {
@@ -116,6 +117,23 @@ impl Clone for Tr {
         });
         push(Ev::Clone(self.id, id));
         Tr { id }
+    }
+}
+
+/// `Default` is a callback like `Clone`: the k-th call can be armed to panic
+/// (same counter as `clone`); the new identity comes from the global counter.
+impl Default for Tr {
+    fn default() -> Tr {
+        let k = CLONE_CALLS.with(|c| {
+            let v = c.get();
+            c.set(v + 1);
+            v
+        });
+        if BOMB_CLONE.with(|b| b.get()) == Some(k) {
+            BOMB_CLONE.with(|b| b.set(None));
+            panic!("injected default panic");
+        }
+        Tr::fresh()
     }
 }
 
